@@ -35,7 +35,11 @@ impl LazyBigint {
 
     pub(crate) fn div_floor(self, rhs: Self) -> Self {
         match (self, rhs) {
-            (Self::Short(s1), Self::Short(s2)) => Self::Short(div_floor(s1, s2)),
+            (Self::Short(s1), Self::Short(s2)) => match s1.checked_div(s2) {
+                Some(_) => Self::Short(div_floor(s1, s2)),
+                // i64::MIN / -1 does not fit a Short
+                None => Self::from(div_floor(BigInt::from(s1), BigInt::from(s2))),
+            },
             (Self::Short(s), Self::Long(b)) => Self::from(div_floor(BigInt::from(s), b)),
             (Self::Long(b), Self::Short(s)) => Self::from(div_floor(b, BigInt::from(s))),
             (Self::Long(b0), Self::Long(b1)) => Self::from(div_floor(b0, b1)),
@@ -44,7 +48,11 @@ impl LazyBigint {
 
     pub(crate) fn div_ceil(self, rhs: Self) -> Self {
         match (self, rhs) {
-            (Self::Short(s1), Self::Short(s2)) => Self::Short(div_ceil(s1, s2)),
+            (Self::Short(s1), Self::Short(s2)) => match s1.checked_div(s2) {
+                Some(_) => Self::Short(div_ceil(s1, s2)),
+                // i64::MIN / -1 does not fit a Short
+                None => Self::from(div_ceil(BigInt::from(s1), BigInt::from(s2))),
+            },
             (Self::Short(s), Self::Long(b)) => Self::from(div_ceil(BigInt::from(s), b)),
             (Self::Long(b), Self::Short(s)) => Self::from(div_ceil(b, BigInt::from(s))),
             (Self::Long(b0), Self::Long(b1)) => Self::from(div_ceil(b0, b1)),
